@@ -109,6 +109,14 @@ func (rep *Report) takeCover(def *propDef, st *CoverStats, cats []*cat.Catalog, 
 	for _, e := range st.HarnessErr {
 		rep.Infra = append(rep.Infra, fmt.Sprintf("cover %s: harness: %s", st.Family, e))
 	}
+	if st.TLC.Coverage != nil {
+		// anti-vacuity: every action of the machine must have been taken in this configuration
+		for _, a := range []string{"GCreateScope", "GProvide", "GDecorate", "GBeginInvoke", "GDescend", "GUnwind", "GExec"} {
+			if st.TLC.Coverage[a] == 0 && !(a == "GDecorate" && !hasKind(cats, "dec")) && !(a == "GCreateScope" && !hasChildScope(cats)) {
+				rep.Infra = append(rep.Infra, fmt.Sprintf("cover %s: vacuous: action %s was never taken (coverage %v)", st.Family, a, st.TLC.Coverage))
+			}
+		}
+	}
 	if st.TLC.Lines != st.Histories+len(st.Crashes) {
 		rep.Infra = append(rep.Infra, fmt.Sprintf("cover %s: %d histories printed but %d replayed", st.Family, st.TLC.Lines, st.Histories))
 	}
@@ -212,6 +220,26 @@ func (rep *Report) takeSig(def *propDef, st *SigStats, err error) {
 	}
 }
 
+func hasKind(cats []*cat.Catalog, kind string) bool {
+	for _, c := range cats {
+		for _, f := range c.Fns {
+			if f.Kind == kind {
+				return true
+			}
+		}
+	}
+	return false
+}
+
+func hasChildScope(cats []*cat.Catalog) bool {
+	for _, c := range cats {
+		if len(c.Parent) > 1 {
+			return true
+		}
+	}
+	return false
+}
+
 func firstLines(s string, n int) string {
 	ls := strings.Split(s, "\n")
 	if len(ls) > n {
@@ -298,7 +326,7 @@ func (rep *Report) writeEvidence(def *propDef, violations int) {
 		stages = append(stages, map[string]interface{}{"stage": "cover:" + c.Family, "catalogs": c.Catalogs, "bounds": c.Bounds,
 			"tlc_generated": c.TLC.Generated, "tlc_distinct": c.TLC.Distinct, "tlc_depth": c.TLC.Depth, "tlc_wall_s": c.TLC.Wall,
 			"histories_replayed_on_real_code": c.Histories, "distinct_histories": c.Distinct, "nontrivial": c.Nontrivial,
-			"api_ops": c.Ops, "user_function_executions": c.Execs, "divergences": c.Divs})
+			"api_ops": c.Ops, "user_function_executions": c.Execs, "divergences": c.Divs, "tlc_action_coverage": c.TLC.Coverage})
 	}
 	for _, t := range rep.Traces {
 		states += t.TLC.Distinct
